@@ -122,8 +122,14 @@ def run(ctx, anchors=None):
     okd = len(desc_assign) == 1 and len(adds) == 1 and "tc_desc.size()" in astq.estr(adds[0]["rhs"]) and guards_txt(main, adds[0]) == guards_txt(main, desc_assign[0]) and len(emit) == 1
     if okd:
         # emitted under the condition under which it is filled (sigversion == TAPSCRIPT)
-        gf = [x for x in guards_txt(main, desc_assign[0]) if "TAPSCRIPT" in x and not x.startswith("!")]
-        ge = [x for x in guards_txt(main, emit[0]) if "TAPSCRIPT" in x and not x.startswith("!")]
+        # the whole condition that mentions TAPSCRIPT (all of its conjuncts), not only that conjunct
+        def tap_cond(node):
+            out = []
+            for (c, t) in S._ast_guards_raw(main, node):
+                if t and "TAPSCRIPT" in astq.estr(c):
+                    out.append(sorted(astq.estr(x) for x in S.conjuncts(c)))
+            return out
+        gf, ge = tap_cond(desc_assign[0]), tap_cond(emit[0])
         okd = bool(gf) and gf == ge
     ctx.site()
     ctx.inst(okd, "R12.1", "commitment-lines-counted", main.loc(desc_assign[0]) if desc_assign else main.loc(),
